@@ -571,6 +571,31 @@ func (p *cpuPair) chain(r *rand.Rand, n int, mode string, kind string, w *json.E
 			a.C = 2 + r.Intn(4)
 		}
 	}
+	if kind == "prog" && r.Intn(10) == 0 {
+		// a software interrupt whose handler rewrites the interrupt vector and interrupts again: the second dispatch must
+		// fetch the vector from memory as it is then (vectors are ordinary bank-0 memory)
+		op, vec := byte(0x00), 0xFFE6
+		if r.Intn(2) == 0 {
+			op, vec = 0x02, 0xFFE4
+		}
+		h1 := 0x2000 + r.Intn(0x6000)
+		h2 := 0xA000 + r.Intn(0x4000)
+		base := uint32(a.K) << 16
+		p.poke(base|uint32(a.PC&0xFFFF), op)
+		p.poke(base|uint32((a.PC+1)&0xFFFF), 0x00)
+		p.poke(uint32(vec), byte(h1))
+		p.poke(uint32(vec+1), byte(h1>>8))
+		prog := []byte{0xC2, 0x20, 0xA9, byte(h2), byte(h2 >> 8), 0x8D, byte(vec), byte(vec >> 8), op, 0x00}
+		for i, b := range prog {
+			p.poke(uint32(h1+i), b)
+		}
+		for i := 0; i < 6; i++ {
+			p.poke(uint32(h2+i), 0xEA)
+		}
+		a.DBR = 0
+		a.S = 0x1F00 + r.Intn(0xFF)
+		a.P &^= 0x08
+	}
 	all := uint64(r.Intn(1 << 20))
 	loadPri(p.pri, a, r, all)
 	loadAlt(p.alt, a, r, all)
